@@ -952,16 +952,16 @@ def run_memsafe(pid, tier, t0):
     results = []
     q = tier == "quick"
     # (module, cfg, constants, tag, 1/k of the transitions replayed in quick): every replayed case executes its whole path from Init
-    plan = [("MC_Shape.tla", "MC_Shape.cfg", shape_consts("quick"), "shape", 16),
-            ("MC_IO.tla", "MC_IO.cfg", io_consts("quick"), "io", 2),
-            ("MC_IO.tla", "MC_IO.cfg", io_values_consts("quick"), "iov", 2),
-            ("MC_Format.tla", "MC_Format.cfg", {"Variant": '"layout"', "Full": "FALSE"}, "layout", 2),
-            ("MC_Params.tla", "MC_Params.cfg", {"MaxVals": 2, "Deep": "FALSE"}, "params", 8),
-            ("MC_Lookup.tla", "MC_Lookup.cfg", {"NPts": 2, "MaxFrames": 1}, "lookup", 8),
-            ("MC_Frames.tla", "MC_Frames.cfg", frames_consts("quick"), "frames", 32),
-            ("MC_Frames.tla", "MC_Frames.cfg", frames_configs("quick")[3][1], "alias", 16),
-            ("MC_Frames.tla", "MC_Frames.cfg", frames_configs("quick")[4][1], "shared", 4),
-            ("MC_Modify.tla", "MC_Modify.cfg", {"Quick": "TRUE"}, "modify", 2),
+    plan = [("MC_Shape.tla", "MC_Shape.cfg", shape_consts("quick"), "shape", 32),
+            ("MC_IO.tla", "MC_IO.cfg", io_consts("quick"), "io", 3),
+            ("MC_IO.tla", "MC_IO.cfg", io_values_consts("quick"), "iov", 3),
+            ("MC_Format.tla", "MC_Format.cfg", {"Variant": '"layout"', "Full": "FALSE"}, "layout", 3),
+            ("MC_Params.tla", "MC_Params.cfg", {"MaxVals": 2, "Deep": "FALSE"}, "params", 200),
+            ("MC_Lookup.tla", "MC_Lookup.cfg", {"NPts": 2, "MaxFrames": 1}, "lookup", 48),
+            ("MC_Frames.tla", "MC_Frames.cfg", frames_consts("quick") if not q else dict(frames_consts("quick"), MaxFrames=2, IdxSlack=2), "frames", 8),
+            ("MC_Frames.tla", "MC_Frames.cfg", frames_configs("quick")[3][1] if not q else dict(frames_configs("quick")[3][1], MaxFrames=2, IdxSlack=2), "alias", 4),
+            ("MC_Frames.tla", "MC_Frames.cfg", frames_configs("quick")[4][1], "shared", 8),
+            ("MC_Modify.tla", "MC_Modify.cfg", {"Quick": "TRUE", "WithReload": "FALSE"}, "modify", 2),
             ("MC_Rates.tla", "MC_Rates.cfg", {"NP": 1, "NA": 1, "Quick": "TRUE", "MaxFrames": 2, "MaxPts": 1, "MaxCh": 1, "IdxSlack": 1}, "rates", 2)]
     if not q:
         plan += [("MC_IO.tla", "MC_IO.cfg", io_consts("thorough"), "io2", 1), ("MC_Format.tla", "MC_Format.cfg", {"Variant": '"patterns"', "Full": "FALSE"}, "patterns", 1)]
@@ -1093,6 +1093,11 @@ def main():
             raise Infra("no check registered for %s" % pid)
         return CHECKS[pid](pid, tier, t0)
     except Infra as e:
+        if vlib.VIOLATION_LINES[0]:
+            # a later leg of the check could not run (e.g. the recorded test suite does not even complete with the changed library),
+            # but violations of the property were already found and reported: that is the verdict
+            log("note: a later leg of this check ended early (%s); the violations above stand" % str(e)[:300])
+            return 1
         log("INFRA-ERROR property=%s %s" % (pid, e))
         return 2
 
